@@ -1,4 +1,4 @@
-(* C16 model runner: stdin lines "create <id>" | "destroy <id>" | "find <id>" | "call <id>" | "cleanup" | "end"
+(* C16 model runner: stdin lines "create <id>" | "destroy <id>" | "find <id>" | "call <id>" | "cleanup" | "advance <secs>" | "cleanup_stale" | "end"
    (a history per block terminated by "end"); stdout: one line per call: "created k" | "bool 0/1" | "acc" | "rej" | "unit",
    then "end". *)
 let () =
@@ -22,6 +22,8 @@ let () =
       | ["find"; i] -> hist := Find (n_of_int (int_of_string i)) :: !hist
       | ["call"; i] -> hist := Call (n_of_int (int_of_string i), n_of_int 1) :: !hist
       | ["cleanup"] -> hist := CleanupAll :: !hist
+      | ["advance"; d] -> hist := Advance (n_of_int (int_of_string d)) :: !hist
+      | ["cleanup_stale"] -> hist := CleanupStale :: !hist
       | ["end"] -> flush_hist ()
       | _ -> print_endline "BADLINE"
     done
